@@ -90,6 +90,8 @@ def showRes (r : Res) (alive : Bool) : String :=
 /-- one resource event (no output) -/
 def resEv (r : Res) (alive : Bool) (e : String) : Option (Res × Bool) :=
   if e == "x" then some (r, false) else
+  -- reads under boundaries that come and go do not change the resource
+  if e == "u" || e == "y" then some (r, alive) else
   let ev : Option REv :=
     if e.startsWith "w" then (e.drop 1).toString.toNat?.map .write
     else if e.startsWith "f" then (e.drop 1).toString.toNat?.map .finish else none
@@ -106,6 +108,7 @@ def runResource (r : Res) (alive : Bool) (evs : List String) (acc : List String)
       | some (r', alive') => runResource r' alive' es (acc ++ [showRes r' alive'])
     else
     if e == "x" then runResource r false es (acc ++ [showRes r false]) else
+    if e == "u" || e == "y" then runResource r alive es (acc ++ [showRes r alive]) else
     let ev : Option REv :=
       if e.startsWith "w" then (e.drop 1).toString.toNat?.map .write
       else if e.startsWith "f" then (e.drop 1).toString.toNat?.map .finish else none
@@ -123,6 +126,7 @@ def runResourceFb (c : Nat) (r : Res) (alive : Bool) (evs : List String) (acc : 
   | [] => acc
   | e :: es =>
     if e == "x" then runResourceFb c r false es (acc ++ [showRes r false]) else
+    if e == "u" || e == "y" then runResourceFb c r alive es (acc ++ [showRes r alive]) else
     let ev : Option REv :=
       if e.startsWith "w" then (e.drop 1).toString.toNat?.map .write
       else if e.startsWith "f" then (e.drop 1).toString.toNat?.map .finish else none
